@@ -12,6 +12,7 @@ CALLS = [
     ("ur1", "each", ["Union<Integer Float>"]),                                     # Range or Array<Float>
     ("ur2", "each_with_index", ["Union<String Symbol>", "Integer"]),               # Array<String> or Array<Symbol>: not a union receiver for ti
     ("ur3", "each", ["Union<untyped Integer>", "Union<Float NilClass>"]),         # Hash (key untyped, value) or Array: surplus is nil per variant
+    ("ur4", "each", ["Union<Float untyped>", "Union<NilClass String>"]),          # the same with the Array first
 ]
 VALS = [("1", "Integer"), ('"s"', "String"), ("1.5", "Float"), (":a", "Symbol")]
 
@@ -95,6 +96,7 @@ def gen_program(r):
     g.emit("ur1 = cu0 ? (1..3) : [1.5]", 0)
     g.emit('ur2 = cu0 ? ["a"] : [:b]', 0)
     g.emit("ur3 = cu0 ? {a: 1.5} : [1]", 0)
+    g.emit('ur4 = cu0 ? [1.5, 2.5] : {a: "s"}', 0)
     if r.random() < 0.5:
         g.emit('w0 = "warm".upcase', 0)          # an ordinary call resolved earlier in the file
         env["w0"] = "String"
